@@ -17,6 +17,10 @@ import common, c10
 ASSUMPTIONS = c10.ASSUMPTIONS + [
     "rename(2) is atomic and unlink/rename do not fail halfway (power loss and non-atomic file systems are outside)",
     "a kill between two stdio calls leaves on disk what the kernel had accepted at the previous call (user-space buffers die with the process)",
+    "stale-directory / job-shapes: which warnings a job has is known from how its files were built (main input: wrong startxref = warns when opened, a too "
+    "small /Length = warns while written; secondary files: a-damaged.pdf with a wrong startxref) and is what the model is given as c11d_wmain / c11d_wother; "
+    "rename(2) onto a directory and fopen(\"wb+\") of a directory fail without changing anything (EISDIR); directory entries other than regular files and "
+    "directories are outside",
 ]
 
 
@@ -266,7 +270,7 @@ def stale_directory_cases(chk, wd, inputs, quick):
         allc = [dict(zip((KEPT, SCRATCH, TEMP), t)) for t in __import__("itertools").product((None,) + kinds, repeat=3)]
         allc = [{n: kd for n, kd in c.items() if kd} for c in allc]
         allc = [c for c in allc if c and c not in confs]
-        confs += rng.sample(allc, 2) if quick else allc
+        confs += rng.sample(allc, 14) if quick else allc
         for conf in confs:
             pre = {n: val[kd] for n, kd in conf.items()}
             # a directory under the temporary name stops the run at its first operation, one under this run's backup name at the first rename
@@ -283,6 +287,17 @@ def stale_directory_cases(chk, wd, inputs, quick):
                           "wmain": inp["warn"], "wother": False, "wx0": False,
                           "tag": "%s/%s" % (iname, ",".join("%s=%s" % (n[10:], kd) for n, kd in sorted(conf.items()))),
                           "describe": {"input": iname, "job": "--replace-input"}})
+        if iname == "small":
+            # --deterministic-id: finish() calls from the Popper destructor precede the renames
+            rd4 = ref4(wd, "stale-did-%s" % iname, "replace-did", inp, ())
+            if rd4.ok:
+                for conf in ({mine: "older"}, {TEMP: "older", mine: "same"}):
+                    pre = {n: val[kd] for n, kd in conf.items()}
+                    cases.append({"r4": rd4, "scen": "replace-did", "inp": inp, "tail": (), "pre": pre,
+                                  "faults": ["none"] + path_faults(rd4, ("full", "fail", "killb", "killa")),
+                                  "wmain": inp["warn"], "wother": False, "wx0": False,
+                                  "tag": "%s/did/%s" % (iname, ",".join("%s=%s" % (n[10:], kd) for n, kd in sorted(conf.items()))),
+                                  "describe": {"input": iname, "job": "--replace-input --deterministic-id"}})
     return cases
 
 
@@ -326,7 +341,7 @@ def job_shape_cases(chk, wd, inputs, quick):
     shapes = job_shapes(inputs)
     cases = []
     combos = [(sh, iname) for sh in shapes for iname in ("small", "warn", "wlate")]
-    full = set(rng.sample(range(len(combos)), 6 if quick else len(combos)))
+    full = set(rng.sample(range(len(combos)), 20 if quick else len(combos)))
 
     def mk(ix):
         (sname, tail, other), iname = combos[ix]
@@ -466,7 +481,13 @@ def run(chk):
                        "neighbours and a sample of the writes): the operation fails (full@k, fail@k), the process is killed before it (killb@k) and after it "
                        "(killa@k); plus a disk that stays full from k on and RLIMIT_FSIZE sweeps; after each run the directory is classified and compared with the "
                        "extracted model (also exit status, diagnostics, every stdio/rename/unlink call and result) and the extracted c11_safe / c11_final_ok are "
-                       "evaluated on it; non-trivial = a run with a fault or a kill, distinct by (input, fault)")
+                       "evaluated on it; non-trivial = a run with a fault or a kill, distinct by (input, fault). Part stale-directory: the same on inputs without / with "
+                       "warnings started in directories that already hold an older document, a byte-identical document, an empty or a non-empty directory under "
+                       "<in>.~qpdf-orig, <in>.~qpdf-orig#, <in>.~qpdf-temp# (each singly, fixed combinations, a sample of all 124 combinations; thorough: all), every "
+                       "non-write operation x {full, fail, killb, killa} and two sampled writes, also with --deterministic-id; part job-shapes: --replace-input inside "
+                       "25 jobs x 3 inputs (clean, warns when opened, warns while written), fault-free + both renames and the removal failing + a kill after each, the "
+                       "complete non-write sweep on a sample (thorough: all); both compared with the extracted c11d_run (Sys/ReplaceDirModel.v) and judged by the extracted "
+                       "c11d_safe / c11d_final_ok; non-trivial = distinct (initial directory or job, input, fault)")
     shutil.rmtree(wd, ignore_errors=True)
 
 
